@@ -210,7 +210,7 @@ class Ctx:
             res.update(K.run_group(small, self.target, min(self.jobs, len(small)), 16,
                                    os.path.join(self.logdir, 'kani_small.log')))
         if large:
-            res.update(K.run_group(large, self.target, min(3, len(large)), 40,
+            res.update(K.run_group(large, self.target, min(2, len(large)), 40,      # two at a time: the C13 history harnesses need ~20 GB each on a 62 GB machine without swap
                                    os.path.join(self.logdir, 'kani_large.log')))
         for h in hs:
             r = res[h.full]
